@@ -28,11 +28,11 @@ def SingleIndex : Req → Prop
   | .syncPatch cp _ | .patch _ cp _ => ∃ i, cp.indices = [i]
   | _ => True
 
-theorem eventPatch_accepted_rows (s : Sys) (o : Nat) (c : Option H) (cp : CommitProof)
+theorem eventPatchCore_accepted_rows (s : Sys) (o : Nat) (c : Option H) (cp : CommitProof)
     (rs : List Rec) (hinv : Inv s) (hd : CommitProof)
-    (h : (eventPatch s o c cp rs).2 = .patched hd) :
-    ∃ k, k ≤ (s.rowsOf o).length ∧ (eventPatch s o c cp rs).1.rowsOf o = (s.rowsOf o).take k ++ rs := by
-  unfold eventPatch at h ⊢
+    (h : (eventPatchCore s o c cp rs).2 = .patched hd) :
+    ∃ k, k ≤ (s.rowsOf o).length ∧ (eventPatchCore s o c cp rs).1.rowsOf o = (s.rowsOf o).take k ++ rs := by
+  unfold eventPatchCore at h ⊢
   cases c with
   | none =>
     simp only at h ⊢
@@ -66,6 +66,15 @@ theorem eventPatch_accepted_rows (s : Sys) (o : Nat) (c : Option H) (cp : Commit
     · have hr : rewind s o c = ((rewind s o c).1, .err e) := by rw [← he]
       rw [hr] at h
       simp at h
+
+theorem eventPatch_accepted_rows (s : Sys) (o : Nat) (c : Option H) (cp : CommitProof)
+    (rs : List Rec) (hinv : Inv s) (hd : CommitProof)
+    (h : (eventPatch s o c cp rs).2 = .patched hd) :
+    ∃ k, k ≤ (s.rowsOf o).length ∧ (eventPatch s o c cp rs).1.rowsOf o = (s.rowsOf o).take k ++ rs := by
+  rcases eventPatch_guard s o c cp rs with hg | ⟨_, ⟨h', hc⟩ | ⟨e, he⟩⟩
+  · rw [hg] at h ⊢; exact eventPatchCore_accepted_rows s o c cp rs hinv hd h
+  · rw [hc] at h; cases h
+  · rw [he] at h; cases h
 
 /-- C09/1.  Whatever requests arrive in whatever order, each one leaves the server log
 either as it was or as a prefix of it followed by exactly the accepted patch: the log only
@@ -103,14 +112,12 @@ theorem handle_preserves_inv (s : Sys) (o : Nat) (r : Req) (hinv : Inv s) : Inv 
   | syncPatch cp rs => exact inv_patchChecked hinv o cp rs
   | patch c cp rs => exact C06.step_preserves_inv s (.eventPatch o c cp rs) hinv
 
-/-- C09/2.  Every state-changing request ends in an explicit answer: accepted, conflict,
-or an error (rewind target absent, empty log); never anything else. -/
-theorem every_request_answers (s : Sys) (o : Nat) (c : Option H) (cp : CommitProof) (rs : List Rec)
+theorem eventPatchCore_answers (s : Sys) (o : Nat) (c : Option H) (cp : CommitProof) (rs : List Rec)
     (hinv : Inv s) (i : Nat) (hi : cp.indices = [i]) :
-    (∃ hd, (eventPatch s o c cp rs).2 = .patched hd) ∨
-    (∃ hd k, (eventPatch s o c cp rs).2 = .conflict hd k) ∨
-    (∃ e, (eventPatch s o c cp rs).2 = .err e) := by
-  unfold eventPatch
+    (∃ hd, (eventPatchCore s o c cp rs).2 = .patched hd) ∨
+    (∃ hd k, (eventPatchCore s o c cp rs).2 = .conflict hd k) ∨
+    (∃ e, (eventPatchCore s o c cp rs).2 = .err e) := by
+  unfold eventPatchCore
   cases c with
   | none =>
     simp only
@@ -150,6 +157,19 @@ theorem every_request_answers (s : Sys) (o : Nat) (c : Option H) (cp : CommitPro
       rw [hr]
       exact Or.inr (Or.inr ⟨e, rfl⟩)
 
+
+/-- C09/2.  Every state-changing request ends in an explicit answer: accepted, conflict,
+or an error (rewind target absent, empty log); never anything else. -/
+theorem every_request_answers (s : Sys) (o : Nat) (c : Option H) (cp : CommitProof) (rs : List Rec)
+    (hinv : Inv s) (i : Nat) (hi : cp.indices = [i]) :
+    (∃ hd, (eventPatch s o c cp rs).2 = .patched hd) ∨
+    (∃ hd k, (eventPatch s o c cp rs).2 = .conflict hd k) ∨
+    (∃ e, (eventPatch s o c cp rs).2 = .err e) := by
+  rcases eventPatch_guard s o c cp rs with hg | ⟨_, ⟨h', hc⟩ | ⟨e, he⟩⟩
+  · rw [hg]; exact eventPatchCore_answers s o c cp rs hinv i hi
+  · exact Or.inr (Or.inl ⟨h', none, hc⟩)
+  · exact Or.inr (Or.inr ⟨e, he⟩)
+
 /-- C09/3.  The paged ancestor scan makes progress: every non-empty page moves the offset
 forward, so the client's loop ends after at most `length` pages (no hang). -/
 theorem scan_page_progress (n offset limit : Nat) (h : offset < n) :
@@ -167,31 +187,54 @@ theorem scan_page_progress (n offset limit : Nat) (h : offset < n) :
     · have : min limit (n - offset) ≤ n - offset := Nat.min_le_right _ _
       omega
 
-/-- C09/4 (partial).  A rewind-and-patch request drops no accepted event when everything it
-rewinds is contained in the patch it applies (which is what a client computes when no other
-device's patch landed between its `diff` and its `patch` request). -/
-theorem no_accepted_event_dropped_partial (s s1 : Sys) (o : Nat) (c : H) (cp : CommitProof)
+theorem coveredBy_spec {removed rs : List Rec} (h : coveredBy removed rs = true) :
+    ∀ x ∈ removed, ∃ y ∈ rs, y.commit = x.commit := by
+  intro x hx
+  unfold coveredBy at h
+  rw [List.all_eq_true] at h
+  have := h x hx
+  rw [List.any_eq_true] at this
+  obtain ⟨y, hy, he⟩ := this
+  exact ⟨y, hy, by simpa using he⟩
+
+/-- the guard lets a request through only when the records after the rewind target are all
+carried by the patch -/
+theorem staleRewind_none {s : Sys} {o : Nat} {c : H} {rs : List Rec}
+    (h : staleRewind s o c rs = none) (k : Nat) (hk : findLast (s.rowsOf o) c = some k) :
+    coveredBy ((s.rowsOf o).drop (k + 1)) rs = true := by
+  unfold staleRewind diffRecords at h
+  simp only [hk] at h
+  split at h
+  · cases h
+  · split at h
+    · assumption
+    · cases h
+
+/-- The body of `event_patch`: when everything it rewinds is carried (by commit) by the patch it
+applies, no event of the log is lost. -/
+theorem eventPatchCore_keeps_covered (s s1 : Sys) (o : Nat) (c : H) (cp : CommitProof)
     (rs removed : List Rec) (hinv : Inv s) (hd : CommitProof)
     (hrw : rewind s o c = (s1, .records removed))
-    (hacc : (eventPatch s o (some c) cp rs).2 = .patched hd)
-    (hsub : ∀ x ∈ removed, x ∈ rs) :
-    ∀ x ∈ s.rowsOf o, x ∈ (eventPatch s o (some c) cp rs).1.rowsOf o := by
+    (hacc : (eventPatchCore s o (some c) cp rs).2 = .patched hd)
+    (hsub : ∀ x ∈ removed, ∃ y ∈ rs, y.commit = x.commit) :
+    ∀ x ∈ s.rowsOf o, ∃ y ∈ (eventPatchCore s o (some c) cp rs).1.rowsOf o, y.commit = x.commit := by
   intro x hx
   obtain ⟨k, _, hlt, hrem, h1, _, _⟩ := rewind_spec hinv hrw
-  unfold eventPatch at hacc ⊢
+  unfold eventPatchCore at hacc ⊢
   simp only [hrw] at hacc ⊢
   rcases patchChecked_cases s1 o cp rs with ⟨h2, hc⟩ | ⟨h2, _, hn⟩
   · obtain ⟨hd2, hp⟩ := patchChecked_equal s1 o cp rs hc
     rw [hp]
     simp only
     rw [rowsOf_applyRecords, h1]
-    simp only [if_true, List.mem_append]
+    simp only [if_true]
     have hsplit : s.rowsOf o = (s.rowsOf o).take (k + 1) ++ (s.rowsOf o).drop (k + 1) :=
       (List.take_append_drop _ _).symm
     rw [hsplit] at hx
     rcases List.mem_append.mp hx with h | h
-    · exact Or.inl h
-    · exact Or.inr (hsub x (by rw [hrem]; exact h))
+    · exact ⟨x, List.mem_append.mpr (Or.inl h), rfl⟩
+    · obtain ⟨y, hy, he⟩ := hsub x (by rw [hrem]; exact h)
+      exact ⟨y, List.mem_append.mpr (Or.inr hy), he⟩
   · generalize hpc : patchChecked s1 o cp rs = res at hacc hn
     obtain ⟨s2, out⟩ := res
     simp only at hacc hn
@@ -203,19 +246,71 @@ theorem no_accepted_event_dropped_partial (s s1 : Sys) (o : Nat) (c : H) (cp : C
     | records r => simp at hacc
     | unmodelled => simp at hacc
 
+/-- C09/4.  An accepted rewind-and-patch request drops no accepted event: every event
+(commit) the server log held before the request is in the log afterwards — whatever other
+devices' patches landed between the client's `diff` and its `patch` request, because a request
+that would rewind a record its patch does not carry is refused (`staleRewind`). -/
+theorem no_accepted_event_dropped (s : Sys) (o : Nat) (c : H) (cp : CommitProof)
+    (rs : List Rec) (hinv : Inv s) (hd : CommitProof)
+    (hacc : (eventPatch s o (some c) cp rs).2 = .patched hd) :
+    ∀ x ∈ s.rowsOf o, ∃ y ∈ (eventPatch s o (some c) cp rs).1.rowsOf o, y.commit = x.commit := by
+  unfold eventPatch at hacc ⊢
+  simp only at hacc ⊢
+  cases hst : staleRewind s o c rs with
+  | some r =>
+    -- a refusal is never `patched`
+    exfalso
+    have hg := eventPatch_guard s o (some c) cp rs
+    unfold eventPatch at hg
+    simp only [hst] at hg hacc
+    unfold staleRewind at hst
+    split at hst
+    · split at hst
+      · cases hst; simp at hacc
+      · split at hst
+        · cases hst
+        · cases hst; simp at hacc
+    · cases hst; simp at hacc
+    · cases hst
+  | none =>
+    simp only [hst] at hacc ⊢
+    rcases rewind_out s o c with ⟨removed, hrs⟩ | ⟨e, he⟩
+    · have hr : rewind s o c = ((rewind s o c).1, .records removed) := by rw [← hrs]
+      obtain ⟨k, hk, _, hrem, _, _, _⟩ := rewind_spec hinv hr
+      have hcov := coveredBy_spec (staleRewind_none hst k hk)
+      exact eventPatchCore_keeps_covered s _ o c cp rs removed hinv hd hr hacc
+        (by rw [hrem]; exact hcov)
+    · have hr : rewind s o c = ((rewind s o c).1, .err e) := by rw [← he]
+      unfold eventPatchCore at hacc
+      simp only at hacc
+      rw [hr] at hacc
+      simp at hacc
+
 private def e1 : Bytes := [1]
 private def eA : Bytes := [10]
 private def eB : Bytes := [11]
 private def base : Sys := Log.run Log.init [.apply 0 1 [e1]]
 private def cpBase : CommitProof := (head [H.leaf e1]).get (by decide)
 
-/-- Witness (KNOWN FINDING C09/stale-rewind): device B's patch is accepted between device A's
-`diff` and A's `patch` request; A's request rewinds to the ancestor it computed earlier and
-applies its merged patch, which does not contain B's event: the accepted event is gone. -/
-theorem stale_rewind_drops_accepted_event :
+/-- Witness of the repaired defect (b-fix `event_patch` refuses a stale rewind): device B's
+patch is accepted between device A's `diff` and A's `patch` request; A's request would rewind
+to the ancestor it computed earlier and drop B's event — it is answered with a conflict and the
+log keeps B's event.  Without the guard (`eventPatchCore`) the accepted event was lost. -/
+theorem stale_rewind_is_refused :
     let s1 := (handle base 0 (.patch (some (H.leaf e1)) cpBase [encodeEvent 5 eB])).1   -- B accepted
-    let s2 := (handle s1 0 (.patch (some (H.leaf e1)) cpBase [encodeEvent 4 eA])).1     -- A, stale
+    let r2 := handle s1 0 (.patch (some (H.leaf e1)) cpBase [encodeEvent 4 eA])         -- A, stale
     s1.rowsOf 0 = [encodeEvent 1 e1, encodeEvent 5 eB] ∧
-    s2.rowsOf 0 = [encodeEvent 1 e1, encodeEvent 4 eA] := by decide
+    r2.1.rowsOf 0 = [encodeEvent 1 e1, encodeEvent 5 eB] ∧
+    (match r2.2 with | .conflict _ none => true | _ => false) = true := by decide
+
+theorem stale_rewind_dropped_accepted_event_before_the_repair :
+    let s1 := (handle base 0 (.patch (some (H.leaf e1)) cpBase [encodeEvent 5 eB])).1
+    (eventPatchCore s1 0 (some (H.leaf e1)) cpBase [encodeEvent 4 eA]).1.rowsOf 0
+      = [encodeEvent 1 e1, encodeEvent 4 eA] := by decide
+
+/-- Non-vacuity of C09/4: a rewind-and-patch whose patch carries the rewound record is accepted. -/
+example : (match (eventPatch (handle base 0 (.patch (some (H.leaf e1)) cpBase [encodeEvent 5 eB])).1 0
+    (some (H.leaf e1)) cpBase [encodeEvent 4 eA, encodeEvent 5 eB]).2 with
+    | .patched _ => true | _ => false) = true := by decide
 
 end Sos.Props.C09
